@@ -8,7 +8,7 @@
      the FeatureState impls (which handler recomputes which cached field) - the table `shipped`:
        features/transport.rs   TransportState      insertion: always      route: yes   solution: stale tours only
        enablers/multi_trip.rs  MultiTripState      insertion: always      route: yes   solution: stale tours only   (capacity)
-       features/compatibility.rs CompatibilityState insertion: tagged job  route: yes   solution: NEVER (empty body)
+       features/compatibility.rs CompatibilityState insertion: tagged job  route: yes   solution: stale tours only (NEVER before b397f8a)
        features/groups.rs      GroupState          insertion: tagged job  route: no    solution: every tour
        features/tour_order.rs  TourOrderState      (solution-level aggregate only; see `sol_recompute`)
    Part 1 is the protocol over abstract tours and feature descriptors; part 2 is the concrete recomputation of every cached
@@ -110,12 +110,16 @@ Definition first_compat (t : list tjob) : option cval :=
 Definition groups_set (t : list tjob) : option cval :=
   Some (CGroups (nodup Z.eq_dec (filter (fun g => negb (g =? 0)) (map tj_group t)))).
 
-Definition shipped : list (feature (list tjob) tjob cval) :=
+(* the table of one feature set: `compat_sol` is what CompatibilityState::accept_solution_state does *)
+Definition table (compat_sol : on_solution) : list (feature (list tjob) tjob cval) :=
   [ mkFeature 0%nat (fun t => Some (CSched (map (fun j => fst (fst j)) t))) (fun _ => true) true SolStale     (* transport *)
   ; mkFeature 1%nat (fun t => Some (CLoad (map (fun j => fst (fst j)) t))) (fun _ => true) true SolStale      (* capacity *)
-  ; mkFeature 2%nat first_compat (fun j => negb (tj_compat j =? 0)) true SolNever                           (* compatibility *)
+  ; mkFeature 2%nat first_compat (fun j => negb (tj_compat j =? 0)) true compat_sol                         (* compatibility *)
   ; mkFeature 3%nat groups_set (fun j => negb (tj_group j =? 0)) false SolAlways ].                         (* groups *)
-Definition shipped_without_compat := filter (fun f => negb (Nat.eqb (f_key f) 2)) shipped.
+(* the code as it is (since /repo b397f8a compatibility refreshes the stale tours, like transport) *)
+Definition shipped := table SolStale.
+(* the code before b397f8a: CompatibilityState::accept_solution_state had an empty body (finding C05-F1, mutant C05-6) *)
+Definition shipped_before_b397f8a := table SolNever.
 
 Definition remove_tjob (id : Z) (t : list tjob) : list tjob := filter (fun j => negb (fst (fst j) =? id)) t.
 
